@@ -20,6 +20,8 @@ Proof.
   intros. unfold splice_time_bytes, ser_stime, ScteEnc.T32, Scte35Spec.T32. cbn [app].
   rewrite to_be32_mod. f_equal. lia.
 Qed.
+Lemma stb_ser' h p : (h = true -> p < 8589934592) -> splice_time_bytes h p = ser_stime (logical_stime h p).
+Proof. destruct h; intros H; [apply stb_ser, H; reflexivity|reflexivity]. Qed.
 
 Lemma comps_imm cs : flat_map (comp_data true) cs = map c_tag cs.
 Proof. induction cs as [|c cs IH]; [reflexivity|]. cbn [flat_map map comp_data negb app]. rewrite IH. reflexivity. Qed.
@@ -28,9 +30,8 @@ Lemma comps_timed cs : Forall (normal_comp false) cs ->
   = flat_map (fun c => fst c :: ser_stime (snd c)) (map (fun c => (c_tag c, logical_stime (c_has_pts c) (c_pts c))) cs).
 Proof.
   induction cs as [|c cs IH]; intros H; [reflexivity|]. inversion H as [|? ? [_ Hc] H']; subst.
-  destruct (Hc eq_refl) as [Hh Hp].
   cbn [flat_map map fst snd]. rewrite IH by assumption. unfold comp_data at 1. cbn [negb].
-  rewrite Hh. rewrite stb_ser by assumption. reflexivity.
+  rewrite stb_ser' by (apply Hc; reflexivity). reflexivity.
 Qed.
 Lemma len_map' {A B} (f : A -> B) l : len (map f l) = len l.
 Proof. unfold len. rewrite map_length. reflexivity. Qed.
@@ -51,8 +52,7 @@ Proof.
     rewrite to_be32_mod. f_equal. f_equal. lia. }
   destruct prog, imm; cbn [andb negb mode_program mode_immediate ser_mode app].
   - f_equal; [destruct out, hasdur; reflexivity|]. cbn [app] in Hbrk. rewrite Hbrk. reflexivity.
-  - destruct (Ht eq_refl eq_refl) as [Hh Hp]. subst has. cbn [logical_stime].
-    f_equal; [destruct out, hasdur; reflexivity|]. rewrite stb_ser by assumption.
+  - f_equal; [destruct out, hasdur; reflexivity|]. rewrite stb_ser' by (apply Ht; reflexivity).
     cbn [app] in Hbrk. rewrite Hbrk. reflexivity.
   - destruct (Hc eq_refl) as [Hcs Hl].
     f_equal; [destruct out, hasdur; reflexivity|]. rewrite comps_imm, len_map'. unfold w8. rewrite N.mod_small by assumption.
@@ -66,7 +66,7 @@ Lemma cmd_data_ser c : normal_cmd c -> cmd_data c = ser_command (logical_cmd c).
 Proof.
   destruct c as [|h p|i]; cbn [normal_cmd cmd_data].
   - reflexivity.
-  - intros [-> Hp]. cbn [logical_cmd logical_stime ser_command]. apply stb_ser. assumption.
+  - intros Hp. cbn [logical_cmd ser_command]. apply stb_ser'. assumption.
   - apply insert_data_ser.
 Qed.
 Lemma cmd_type_logical c : cmd_type c = command_type (logical_cmd c).
